@@ -455,11 +455,11 @@ class PError(FnContract):
             t = ctx['t']
             fmt = getattr(ex, 'formatted', [])
             ex.prove('C20:p_error[token]:message-shows-the-token-text', ['C20'],
-                     any(v.eq(ex.get_field(t, 'value')) for v in fmt), {'formatted': [str(v) for v in fmt]})
+                     any(ex.same(v, ex.get_field(t, 'value')) for v in fmt), {'formatted': [str(v) for v in fmt]})
             ex.prove('C20:p_error[token]:message-shows-the-line-recorded-on-the-token', ['C20'],
-                     any(v.eq(ex.get_field(t, 'lineno')) for v in fmt), {'formatted': [str(v) for v in fmt]})
+                     any(ex.same(v, ex.get_field(t, 'lineno')) for v in fmt), {'formatted': [str(v) for v in fmt]})
             ex.prove('C20:p_error[token]:message-shows-nothing-else-from-the-lexer', ['C20'],
-                     all(v.eq(ex.get_field(t, 'value')) or v.eq(ex.get_field(t, 'lineno')) for v in fmt))
+                     all(ex.same(v, ex.get_field(t, 'value')) or ex.same(v, ex.get_field(t, 'lineno')) for v in fmt))
         else:
             fmt = getattr(ex, 'formatted', [])
             lits = [s for s in getattr(ex, 'fstring_literals', [])]
